@@ -26,6 +26,18 @@ impl Opts {
   pub fn get_usize(&self, k: &str, d: usize) -> usize {
     self.kv.get(k).and_then(|s| s.parse().ok()).unwrap_or(d)
   }
+  /// `--shard i/n` -> (i, n); default (0, 1)
+  pub fn shard(&self) -> (usize, usize) {
+    match self.kv.get("shard") {
+      Some(s) => {
+        let mut it = s.split('/');
+        let i = it.next().and_then(|x| x.parse().ok()).unwrap_or(0);
+        let n = it.next().and_then(|x| x.parse().ok()).unwrap_or(1);
+        (i, if n == 0 { 1 } else { n })
+      },
+      None => (0, 1),
+    }
+  }
   pub fn get(&self, k: &str) -> Option<&String> { self.kv.get(k) }
 }
 
